@@ -152,6 +152,7 @@ func propC07Pause(ch core.Chooser, st *core.Stats) error {
 	defer env.Cleanup()
 	hfs := hookfs.New(env.FS)
 	cfg := dbx.Config{SegSize: uint32(core.PickInt(ch, "segsize", []int{1024, 2048, 4096, 1 << 20})), MinSeg: 520, Frag: 0.02}
+	cfg.SyncWrites = core.Pct(ch, "syncwrites", 30) // sync after every write: more file-system calls inside a Put/Delete to park in
 	db, err := dbx.Open(env.Dir, cfg, hfs)
 	if err != nil {
 		return err
@@ -266,6 +267,17 @@ func propC07Pause(ch core.Chooser, st *core.Stats) error {
 				c.do(2+j, op.kind, op.key, op.val)
 			}(j, op)
 		}
+		if core.Pct(ch, "probe_compact", 25) && vdesc != "Compact()" {
+			// a maintenance operation among the probes: it must wait like everybody else
+			probeDesc = append(probeDesc, "Compact")
+			wg.Add(1)
+			go func() {
+				defer wg.Done()
+				if err := core.Safe(func() error { _, e := db.Compact(); return e }); err != nil && !strings.Contains(err.Error(), "busy") {
+					c.fail("Compact (probe) failed: %v", err)
+				}
+			}()
+		}
 		before := len(c.h.snapshot())
 		// give the probes a moment to (wrongly) complete; the length of the wait only shapes
 		// the schedule, it is never a verdict
@@ -369,6 +381,7 @@ func setupFreeRun(ch core.Chooser, kinds []string, maxWorkers, maxOps int) (*fre
 	kind := drawEnvKind(ch, kinds)
 	env := NewEnv(kind)
 	cfg := dbx.Config{SegSize: uint32(core.PickInt(ch, "segsize", []int{1024, 2048, 4096})), MinSeg: 520, Frag: []float32{0.02, 0.1, 0.3}[ch.Int("frag", 0, 2)]}
+	cfg.SyncWrites = core.Pct(ch, "syncwrites", 30)
 	db, err := dbx.Open(env.Dir, cfg, env.FS)
 	if err != nil {
 		env.Cleanup()
